@@ -77,6 +77,20 @@ FamRemove(st, s) == s \in st.sds
 \* replace one subdomain by a grid of the same dimension that is not in the container
 FamReplaceOne(D, st, old, new) == old \in st.sds /\ new \in (1..Len(D)) \ st.sds /\ D[old] = D[new]
 FamReplaceIntf(st, i) == i \in DOMAIN st.ifs
+\* sd_map = sequence of <<old, new>>: applying the entries in order, each one is in the family
+\* (IF, not a disjunction: inside an action TLC explores both disjuncts)
+RECURSIVE FamReplaceSeq(_, _, _)
+FamReplaceSeq(D, st, map) ==
+  IF map = <<>> THEN TRUE
+  ELSE /\ FamReplaceOne(D, st, map[1][1], map[1][2])
+       /\ FamReplaceSeq(D, [st EXCEPT !.sds = (@ \ {map[1][1]}) \cup {map[1][2]}], Tail(map))
+\* recorded call e (JSON object with field ev)
+FamCall(D, M, st, e) ==
+  CASE e.ev = "add" -> FamAdd(D, st, e.L)
+    [] e.ev = "addintf" -> FamAddIntf(D, M, st, e.i, e.a, e.b)
+    [] e.ev = "remove" -> FamRemove(st, e.s)
+    [] e.ev = "replace" -> e.map # <<>> /\ FamReplaceSeq(D, st, e.map)
+    [] e.ev = "replaceintf" -> FamReplaceIntf(st, e.i)
 
 (* ----------------------------- reference semantics ----------------------------------------- *)
 \* every operation returns [st |-> state after the call, ok |-> must the call be accepted?]
